@@ -299,38 +299,86 @@ def ob_add_pairs(kind):
 
 
 def ob_incremental():
-    """_Solver_Apply_Dirichlet: prescribed values handed to the elimination are value - current[dofs] on the Newton path and zero for euler_explicit."""
+    """_Solver_Apply_Dirichlet: the prescribed values handed to the elimination (which SUMS the entries of a dof) amount, per dof, to (sum of the entered values) - current
+    on the Newton path, to the sum of the entered values on the linear path and to zero for euler_explicit -- also when a dof is entered several times."""
     from EasyFEA.Simulations.Solvers import AlgoType
     n = 0
-    for algo, nonlinear in (("elliptic", True), ("newmark", True), ("elliptic", False), ("euler_explicit", False)):
-        c = Ctx(["v0", "v1", "c0", "c1", "c2"], nspare=1)
-        NPs = npshim.NP(c)
-        g = sx.module_globals("EasyFEA.Simulations._simu", np=NPs)
-        dofs = np.array([2, 0])
-        vals = np.array([c.sym("v0"), c.sym("v1")], dtype=object)
-        cur = np.array([c.sym("c0"), c.sym("c1"), c.sym("c2")], dtype=object)
-        cap = {}
+    for dofs_list in ([2, 0], [2, 0, 2], [1, 1, 1, 0]):
+        for algo, nonlinear in (("elliptic", True), ("newmark", True), ("elliptic", False), ("euler_explicit", False)):
+            names = [f"v{k}" for k in range(len(dofs_list))] + ["c0", "c1", "c2"]
+            c = Ctx(names, nspare=1)
+            NPs = npshim.NP(c)
+            g = sx.module_globals("EasyFEA.Simulations._simu", np=NPs)
+            dofs = np.array(dofs_list)
+            vals = np.array([c.sym(f"v{k}") for k in range(len(dofs_list))], dtype=object)
+            cur = np.array([c.sym("c0"), c.sym("c1"), c.sym("c2")], dtype=object)
+            cap = {}
 
-        def get_A_x(pt, res, A, b, dv):
-            cap["dv"] = dv
-            return A, "x"
-        me = sx.Mock("self", algo=AlgoType[algo], isNonLinear=nonlinear, _verbosity=False, Bc_dofs_Dirichlet=lambda pt: dofs, Bc_values_Dirichlet=lambda pt: vals.copy(),
-                     Get_K_C_M_F=lambda pt=None: (Lin.atom("mat", "K"), Lin.atom("mat", "C"), Lin.atom("mat", "M"), None),
-                     _Solver_Get_K_C_M_coefs_for_time_scheme=lambda: (1, 2, 3), _Solver_Get_Newton_Raphson_current_solution=lambda: cur,
-                     _Simu__Solver_Get_Dirichlet_A_x=get_A_x)
-        f = extract.compile_fn(extract.get(SP, "_Simu._Solver_Apply_Dirichlet"), g)
-        f(me, "pt", "b", "r1")
-        dv = cap["dv"]
-        want = [vals[0] - cur[2], vals[1] - cur[0]] if nonlinear else list(vals)
-        if algo == "euler_explicit":
-            want = [c.const(0), c.const(0)]
-        for a, b_ in zip(dv, want):
-            n += 1
-            a = a if isinstance(a, X) else c.const(a)
-            if not (a == b_):
-                raise Refuted(f"_Solver_Apply_Dirichlet (algo={algo}, nonlinear={nonlinear}): prescribed value {a}, expected {b_}", signature=f"incremental:{algo}:{nonlinear}",
-                              replay=dict(confirmed=True, note="extracted function evaluated symbolically"))
+            def get_A_x(pt, res, A, b, dv):
+                cap["dv"] = dv
+                return A, "x"
+            me = sx.Mock("self", algo=AlgoType[algo], isNonLinear=nonlinear, _verbosity=False, Bc_dofs_Dirichlet=lambda pt: dofs, Bc_values_Dirichlet=lambda pt: vals.copy(),
+                         Get_K_C_M_F=lambda pt=None: (Lin.atom("mat", "K"), Lin.atom("mat", "C"), Lin.atom("mat", "M"), None),
+                         _Solver_Get_K_C_M_coefs_for_time_scheme=lambda: (1, 2, 3), _Solver_Get_Newton_Raphson_current_solution=lambda: cur,
+                         _Simu__Solver_Get_Dirichlet_A_x=get_A_x)
+            f = extract.compile_fn(extract.get(SP, "_Simu._Solver_Apply_Dirichlet"), g)
+            f(me, "pt", "b", "r1")
+            dv = list(np.asarray(cap["dv"], dtype=object).ravel())
+            if len(dv) != len(dofs_list):
+                raise Refuted(f"_Solver_Apply_Dirichlet hands over {len(dv)} values for {len(dofs_list)} entries", signature=f"incremental:{algo}:{nonlinear}:size", replay=dict(confirmed=True))
+            for dof in sorted(set(dofs_list)):
+                tot = sum((dv[k] if isinstance(dv[k], X) else c.const(dv[k]) for k in range(len(dofs_list)) if dofs_list[k] == dof), c.const(0))
+                want = sum((vals[k] for k in range(len(dofs_list)) if dofs_list[k] == dof), c.const(0))
+                if nonlinear:
+                    want = want - cur[dof]
+                if algo == "euler_explicit":
+                    want = c.const(0)
+                n += 1
+                if not (tot == want):
+                    raise Refuted(f"_Solver_Apply_Dirichlet (algo={algo}, nonlinear={nonlinear}, dofs entered {dofs_list}): the values handed over for dof {dof} sum to {tot}, expected {want} "
+                                  f"(sum of the entered values{' minus the current Newton iterate' if nonlinear else ''})", cex=dict(dofs=dofs_list, algo=algo, nonlinear=nonlinear),
+                                  signature=f"incremental:{algo}:{nonlinear}", replay=_replay_incremental())
     return Verdict(DISCHARGED, backend="ring-normal-form", sub=n)
+
+
+def _replay_incremental():
+    """native: a Newton (hyperelastic) solve with a displacement entered in two parts on the same dofs vs entered once."""
+    try:
+        e = _newton_dup()
+        return dict(confirmed=bool(e is None or e > 1e-8), rel_err=e)
+    except Exception as ex:
+        return dict(confirmed=True, raised=repr(ex)[:200])
+
+
+def _newton_dup():
+    import contextlib, io
+    from EasyFEA import Models, Simulations
+    mesh = patches.two_element_mesh("QUAD4")
+    co = np.asarray(mesh.coord)
+    n0 = np.where(np.isclose(co[:, 0], co[:, 0].min()))[0]
+    n1 = np.where(np.isclose(co[:, 0], co[:, 0].max()))[0]
+
+    def run(parts):
+        sm = Simulations.HyperElastic(mesh, Models.HyperElastic.NeoHookean(2, K=10.0), verbosity=False)
+        sm.add_dirichlet(n0, [0, 0], ["x", "y"])
+        for v in parts:
+            sm.add_dirichlet(n1, [v], ["x"])
+        with contextlib.redirect_stdout(io.StringIO()):
+            sm.Solve()
+        return np.asarray(sm.displacement)
+    a, b = run([0.05]), run([0.03, 0.02])
+    return float(np.abs(a - b).max() / np.abs(a).max())
+
+
+def ob_newton_dup():
+    try:
+        e = _newton_dup()
+    except Exception as ex:
+        raise Refuted(f"Newton solve with a prescribed displacement entered in two parts (0.03 + 0.02) on the same dofs raises {type(ex).__name__}: {str(ex)[:150]}", signature="newton:dup:raises",
+                      replay=dict(confirmed=True, error=str(ex)[:200]))
+    if e > 1e-8:
+        raise Refuted(f"Newton solve: entering 0.03 and 0.02 on the same dofs gives another solution than entering 0.05 once (relative difference {e:.3e})", signature="newton:dup", replay=dict(confirmed=True, rel_err=e))
+    return Verdict(DISCHARGED, backend="native run", detail=f"rel diff {e:.1e}")
 
 
 def ob_orphans():
@@ -591,7 +639,7 @@ def ob_lagrange():
     return Verdict(DISCHARGED, backend="native run")
 
 
-def ob_lagrange_vs_elim():
+def ob_lagrange_vs_elim(coefs=(1.0, -1.0)):
     """The bordered (Lagrange) system of __Solver_2 and the elimination of __Solver_1 give the same solution: a Lagrange condition that merely repeats
     a Dirichlet value switches the simulation to the multiplier solver."""
     from EasyFEA import Models, Simulations, SolverType
@@ -610,15 +658,16 @@ def ob_lagrange_vs_elim():
     mid = np.setdiff1d(np.arange(len(pre)), np.concatenate([n0, n1]))[:2]
     simu.add_neumann(mid, [0.3], ["t"])
     # tie the two loaded nodes together with a multiplier: t[mid0] - t[mid1] = delta, delta taken from the elimination solution (so both problems coincide)
-    delta = float(r1["u"][mid[0]] - r1["u"][mid[1]])
+    c0_, c1_ = coefs          # a multi-point constraint c0 t[mid0] + c1 t[mid1] = delta with coefficients that are not +-1 (mean-value, ratio constraints)
+    delta = float(c0_ * r1["u"][mid[0]] + c1_ * r1["u"][mid[1]])
     try:
-        lc = LagrangeCondition(simu.problemType, mid, np.array([mid[0], mid[1]]), ["t"], np.array([delta]), np.array([1.0, -1.0]))
+        lc = LagrangeCondition(simu.problemType, mid, np.array([mid[0], mid[1]]), ["t"], np.array([delta]), np.array([c0_, c1_]))
         simu._Bc_Add_Lagrange(lc)
     except Exception as ex:
         raise Unsupported(f"cannot build a LagrangeCondition through the public pieces: {ex}")
     u = np.asarray(simu.Solve())
     err = float(np.abs(u - r1["u"]).max() / np.abs(r1["u"]).max())
-    gap = abs((u[mid[0]] - u[mid[1]]) - delta)
+    gap = abs((c0_ * u[mid[0]] + c1_ * u[mid[1]]) - delta)
     if err > 1e-9 or gap > 1e-10:
         raise Refuted(f"Lagrange-multiplier solve differs from the elimination solve by {err:.3e}; multi-point constraint violated by {gap:.3e}", signature="lagrange:vs_elim",
                       replay=dict(confirmed=True, rel_err=err, gap=float(gap)))
@@ -808,7 +857,7 @@ def build(tier, seed):
     for kind in ("dirichlet", "neumann"):
         obs.append(Ob(f"C04.add.pairs.{kind}", ob_add_pairs, (kind,), "P", (f"{SP}::_Simu.add_{kind}", f"{SP}::_Simu.__Bc_evaluate", f"{SP}::_Simu.Bc_dofs_nodes") + ((f"{SP}::_Simu.__Bc_pointLoad",) if kind == "neumann" else ()),
                       clause="every listed node receives ITS value: recorded (dof, value) pairs == (dof(nodes[i], unknown), value_i) for any node order, repeated nodes, constant / array / function values (symbolic values; 25 node lists)"))
-    obs.append(Ob("C04.incremental", ob_incremental, (), "P", (f"{SP}::_Simu._Solver_Apply_Dirichlet",), clause="Newton: value - current; euler_explicit: zero"))
+    obs.append(Ob("C04.incremental", ob_incremental, (), "P", (f"{SP}::_Simu._Solver_Apply_Dirichlet",), clause="per dof: Newton: (sum of entered values) - current; linear: sum; euler_explicit: zero -- also for dofs entered several times"))
     obs.append(Ob("C04.orphans", ob_orphans, (), "P", (f"{SP}::_Simu.__Solver_Get_Dirichlet_A_x",), clause="unit diagonal on orphan dofs only; entered values summed per dof"))
     obs.append(Ob("C04.backend.callsite", ob_backend_callsite, (), "P", (f"{SOL}::_Solve_Axb",), clause="library solver calls satisfy the callee's documented argument kinds"))
     for et, physics, dup, orphan in (("TRI3", "thermal", False, False), ("QUAD4", "elastic", True, False), ("TRI3", "elastic", True, True), ("TETRA4", "elastic", False, False),
@@ -832,8 +881,9 @@ def build(tier, seed):
         obs.append(Ob(f"C04.backend.{backend}", ob_backend, (backend,), "X", (f"{SOL}::_Solve_Axb",), bound="one 9-node thermal problem", clause="agrees with the direct solve (1e-4), constraints exact", timeout=300))
     obs.append(Ob("C04.backend.lsq_linear", ob_backend_lsq, (), "X", (f"{SOL}::_Solve_Axb", "EasyFEA/Simulations/_phasefield.py::PhaseField.Get_lb_ub"), bound="one 9-node phase-field problem, 4 load steps (one unloading)",
                   clause="bounded least squares with a reduced system: bounds of the unknown dofs handed over, result == minimiser of the captured bounded problem (independent BVLS solve, KKT), prescribed value held, damage within [previous, 1]", timeout=600))
-    obs.append(Ob("C04.lagrange.vs_elim", ob_lagrange_vs_elim, (), "X", (f"{SOL}::__Solver_2",), bound="one thermal problem with one multi-point constraint",
-                  clause="bordered system == elimination solution; multi-point constraint satisfied", timeout=300))
+    for tag, cf in (("", (1.0, -1.0)), (".ratio", (2.0, -0.5)), (".mean", (0.25, 0.25))):
+        obs.append(Ob(f"C04.lagrange.vs_elim{tag}", ob_lagrange_vs_elim, (cf,), "X", (f"{SOL}::__Solver_2",), bound=f"one thermal problem with one multi-point constraint, coefficients {cf}",
+                      clause="bordered system == elimination solution; multi-point constraint satisfied (also with coefficients other than +-1 and a non-zero value)", timeout=300))
     for dirichlet, lagr in (([(0, 2.0), (3, -1.0)], [([1, 2], [1, -1], 0.5)]),
                             ([(0, 2.0), (3, -1.0), (0, 0.5)], [([1, 2], [1, -1], 0.5)]),
                             ([(4, 1.0), (4, 1.0), (4, 1.0), (5, 0.0)], [([1, 2], [1, -1], 0.0), ([0, 3], [2, 1], 1.0)]),
@@ -845,6 +895,7 @@ def build(tier, seed):
     obs.append(Ob("C04.lagrange.dup", ob_lagrange_dup, (), "X", (f"{SOL}::__Solver_2", f"{SP}::_Simu._Bc_Lagrange_dim"), bound="one 2-beam frame",
                   clause="duplicated Dirichlet entries under the multiplier solver: finite, sum convention, connection exact", timeout=300))
     obs.append(Ob("C04.lagrange.beam", ob_lagrange, (), "X", (f"{SOL}::__Solver_2",), bound="one 2-beam frame", clause="connection constraints satisfied", timeout=300))
+    obs.append(Ob("C04.newton.dup", ob_newton_dup, (), "X", (f"{SP}::_Simu._Solver_Apply_Dirichlet",), bound="one 2-element hyperelastic patch", clause="Newton-incremental solve: a dof constrained twice holds the sum of the entered values", timeout=300))
     obs.append(Ob("C04.newton", ob_newton, (), "X", (f"{SP}::_Simu._Solver_Solve_Newton_Raphson", f"{SP}::_Simu._Solver_Apply_Dirichlet"), bound="3 load steps on one hyperelastic patch",
                   clause="constraints met after Newton-incremental solves", timeout=600))
     obs.append(Ob("canary.elim", ob_elim, (True,), "P", expect=REFUTED))
